@@ -111,4 +111,38 @@ example : modInt (BitVec.ofInt 64 (-7)) 3#64 = 2#64 := by decide
 example : floordivInt (BitVec.ofInt 64 (-7)) 3#64 = BitVec.ofInt 64 (-3) := by decide
 example : floordivInt I64.minInt (BitVec.ofInt 64 (-1)) = I64.minInt := by decide
 
+/-! ### edge laws of the regenerated `floordivInt` / `modInt` -/
+
+/-- `x // -1` is the wrapped negation for every int64, `minint` included (no trap, no special value) -/
+theorem floordiv_minus_one (x : BitVec 64) : floordivInt x (BitVec.ofInt 64 (-1)) = -x := by
+  apply BitVec.eq_of_toInt_eq
+  rw [floordivInt_spec x _ (by decide), unm_wraps]
+  have : (BitVec.ofInt 64 (-1)).toInt = -1 := by decide
+  rw [this, Int.fdiv_eq_ediv]
+  simp
+
+/-- `x % -1 = 0` for every int64 (the case C's `%` traps on for `minint`) -/
+theorem mod_minus_one (x : BitVec 64) : modInt x (BitVec.ofInt 64 (-1)) = 0#64 := by
+  apply BitVec.eq_of_toInt_eq
+  rw [modInt_spec x _ (by decide)]
+  have : (BitVec.ofInt 64 (-1)).toInt = -1 := by decide
+  rw [this, Int.fmod_eq_emod]
+  simp
+
+theorem floordiv_one (x : BitVec 64) : floordivInt x 1#64 = x := by
+  apply BitVec.eq_of_toInt_eq
+  rw [floordivInt_spec x _ (by decide)]
+  have : (1#64 : BitVec 64).toInt = 1 := by decide
+  rw [this]
+  have hx := @BitVec.toInt_lt 64 x
+  have hx' := @BitVec.le_toInt 64 x
+  simp
+  apply Int.bmod_eq_of_le <;> omega
+
+/-- `%` is idempotent: reducing a residue again changes nothing -/
+theorem mod_idempotent (x y : BitVec 64) (hy : y ≠ 0#64) : modInt (modInt x y) y = modInt x y := by
+  apply BitVec.eq_of_toInt_eq
+  rw [modInt_spec _ y hy, modInt_spec x y hy]
+  simp
+
 end GoluaVerif.Props.C02
